@@ -24,7 +24,10 @@ Definition unguarded (o : op) : bool :=
   | AddColsTab _ _ t k => match t with None => true | Some _ => (k <? 0)%Z end
   | AddSel _ _ | DelUID _ | DelCol _ | DelName _ | DelUIDs _ | DelByLoc _ | ClearLoc _ | SwitchLoc _ _
   | SetNameCol _ _ | SetNameUID _ _ | SetNameOld _ _ | AddSamples _ _ | DelSample _ | SetArray _ _ _ | SetValue _ _ _
-  | DupCol _ _ | DelCols _ | DelNames _ | DelUIDRange _ _ | SetNameList _ _ | SetNameLoc _ _ => true
+  | DupCol _ _ | DelCols _ | DelNames _ | DelUIDRange _ _ | SetNameList _ _ | SetNameLoc _ _
+  | DelSamples _ | SetColumnUID _ _ _ | SetColumnCol _ _ _ | SetValueCol _ _ _ | SetFromLoc _ _ _ _
+  | AddSelC _ _ _ | AddSelLimit _ _ _ _ _ _ => true
+  | AddColsVVD _ _ t k _ => match t with None => true | Some _ => (k <? 0)%Z end
   | _ => false
   end.
 Lemma unguarded_accepted s o : unguarded o = true -> accepted s o.
@@ -32,6 +35,7 @@ Proof.
   unfold accepted. destruct o; simpl; intro H; try discriminate; auto.
   - destruct (nadd <=? 0)%Z; auto. destruct t; simpl; auto. now rewrite H.
   - destruct tab; auto. destruct t; simpl; auto. now rewrite H.
+  - destruct (concat tabs); auto. destruct t; simpl; auto. now rewrite H.
 Qed.
 Lemma unguarded_all s ops : forallb unguarded ops = true -> all_accepted s ops.
 Proof.
@@ -51,6 +55,49 @@ Lemma all_acceptedb_spec s ops : all_acceptedb s ops = true -> all_accepted s op
 Proof.
   revert s; induction ops as [|o r IH]; intros s H; simpl in *; auto.
   apply andb_true_iff in H. destruct H as [H1 H2]. split; auto. now apply Z.eqb_eq in H1.
+Qed.
+
+(* ------------------------------------------------------------------ scripts (creators) and commands *)
+Lemma script_inv sc : forall s, Inv s -> script_why s sc = 0%Z -> Inv (run_script sc s).
+Proof.
+  unfold run_script. induction sc as [|o r IH]; intros s H Hw; simpl in *; auto.
+  destruct (why_not s o =? 0)%Z eqn:E.
+  - apply IH; auto. apply step_inv; auto. now apply Z.eqb_eq in E.
+  - apply Z.eqb_neq in E. contradiction.
+Qed.
+Lemma stepg_inv g s o : Inv s -> (g && is_sample_edit o = true \/ accepted s o) -> Inv (stepg g s o).
+Proof.
+  intros H Ha. unfold stepg. destruct (g && is_sample_edit o); auto.
+  destruct Ha as [Ha|Ha]; [discriminate|]. now apply step_inv.
+Qed.
+(* every creator starts from a state satisfying the invariant (the fresh Db, or the one left by resetDims) *)
+Lemma cmd_start_inv s c : Inv s -> Inv (snd (cmd_script s c)).
+Proof.
+  intro H. destruct c; simpl; auto; try apply reset_dims_inv; try apply init_inv.
+  all: try (destruct (migrate_dims refine nx nmult cell rank); simpl; apply reset_dims_inv).
+Qed.
+Lemma exec_inv g c : Inv (snd g) -> accepted_cmd g c -> Inv (snd (exec g c)).
+Proof.
+  intros H Ha. unfold accepted_cmd, why_not_cmd in Ha.
+  destruct c; simpl exec.
+  - simpl. apply stepg_inv; auto. destruct (fst g && is_sample_edit o); auto.
+  - simpl. apply script_inv; auto. apply reset_dims_inv.
+  - simpl. apply script_inv; auto. apply reset_dims_inv.
+  - simpl. apply script_inv; auto. apply init_inv.
+  - simpl. apply script_inv; auto. apply reset_dims_inv.
+  - destruct (fst g); auto. simpl. apply script_inv; auto. apply reset_dims_inv.
+  - destruct (fst g); auto. simpl in *. destruct (migrate_dims refine nx nmult cell rank).
+    apply script_inv; auto. apply reset_dims_inv.
+Qed.
+Fixpoint all_accepted_cmd (g : gstate) (cs : list cmd) : Prop :=
+  match cs with
+  | [] => True
+  | c :: r => accepted_cmd g c /\ all_accepted_cmd (exec g c) r
+  end.
+Lemma reachable_cmd cs : forall g, Inv (snd g) -> all_accepted_cmd g cs -> Inv (snd (fold_left exec cs g)).
+Proof.
+  induction cs as [|c r IH]; intros g H Ha; simpl in *; auto.
+  destruct Ha as [H1 H2]. apply IH; auto. now apply exec_inv.
 Qed.
 
 (* ------------------------------------------------------------------ counterexamples *)
